@@ -172,10 +172,9 @@ def _replace_factors(factors: Dict[Dimension, List[Unit]]) -> RoughPlan:
                         break
 
         for dimension, unit, alternative in replacements:
-            overall_sign = 1
-            if not unit.dimension.is_factor(dimension):
-                assert (unit**-1).dimension.is_factor(dimension)
-                overall_sign = -1
+            # units are filed under their own dimension (positive exponents) or under
+            # its inverse (negative exponents)
+            overall_sign = 1 if unit.dimension is dimension else -1
 
             ratio = _ratios[unit][alternative]
 
